@@ -29,6 +29,8 @@ def plan(tier):
         for (n1, n2) in (((17, 20),) if tier == 'quick' else ((17, 20), (0, 33), (16, 16), (5, 44))):
             qs.append(q('ctr:%s:%d+%d' % (k, n1, n2), 'forall key, 16-byte IV (all carries, wrap-around), data: CTR<%s> setKey ; setIV ; encrypt(%d) ; encrypt(%d) == input xor E(iv), E(iv+1), ... with the C library cipher' % (k, n1, n2),
                         {'K': k, 'FAMILY': 128, 'KEYLEN': kl, 'TWEAKED': 0, 'OB_CTR': 1, 'N1': n1, 'N2': n2}, timeout=3600))
+    qs.append(q('ctr-rekey:Skinny128_128:5+20', 'forall keys K1, K2, IV, data: CTR<Skinny128_128> setKey(K1) ; setIV ; encrypt(5) ; setKey(K2) ; encrypt(20) == what the C library does for the same calls (the stream continues with the next counter block under K2)',
+                {'K': 'Skinny128_128', 'FAMILY': 128, 'KEYLEN': 16, 'TWEAKED': 0, 'OB_CTR': 1, 'REKEY': 1, 'N1': 5, 'N2': 20}, timeout=3600))
     return dict(queries=qs, level='translation_validation', pre=[],
                 functions=['Skinny128_128/256/384(_Tweaked), Skinny64_64/128/192(_Tweaked), Mantis8: constructor, setKey, setTweak, swapModes, encryptBlock, decryptBlock, keySize, blockSize', 'CTR<T>/CTRCommon: setKey, setIV, encrypt',
                            'C library functions of the corresponding variants as the other side of the miter'],
